@@ -505,6 +505,37 @@ class Symx:
             i1 = self.iterator(args[1], st)
             if i0 and i1 and i0[0] == i1[0]:
                 return Function('ITER_' + ('MIN' if short == 'min_element' else 'MAX'))(Symbol('arr:' + i0[0]), i0[1], i1[1])
+        if short == 'inner_product' and len(args) == 4:
+            i0, i1, j0 = self.iterator(args[0], st), self.iterator(args[1], st), self.iterator(args[2], st)
+            if i0 and i1 and j0 and i0[0] == i1[0]:
+                jv = Symbol('j_', integer=True)
+
+                def elem_(it_, arg_, ix_):
+                    io_ = self.iter_container(arg_, st)
+                    src_ = st.env.get(io_[0]) if io_ is not None and io_[0] is not None else None
+                    return src_.read((ix_,)) if isinstance(src_, Arr) else Function(it_[0], real=True)(ix_)
+                return self.sym(args[3], st) + sp.Sum(elem_(i0, args[0], jv) * elem_(j0, args[2], jv - i0[1] + j0[1]), (jv, i0[1], i1[1] - 1))
+        if short == 'accumulate' and len(args) == 4:
+            # fold with a binary operation given as a lambda: op(acc, v) = acc + g(v)  ->  init + sum of g over the range
+            i0 = self.iterator(args[0], st)
+            i1 = self.iterator(args[1], st)
+            f_ = strip(args[3])
+            while f_.get('k') in ('Construct', 'Cast', 'Copy') and (f_.get('args') or f_.get('e')):
+                f_ = strip(f_['args'][0]) if f_.get('k') == 'Construct' else strip(f_['e'])
+            lv_ = LambdaVal(f_, st.env) if f_.get('k') == 'Lambda' else (st.env.get(self.lv_key(f_)) if f_.get('k') == 'Ref' else None)
+            if i0 and i1 and i0[0] == i1[0] and isinstance(lv_, LambdaVal):
+                jv = Symbol('j_', integer=True)
+                io = self.iter_container(args[0], st)
+                src = st.env.get(io[0]) if io is not None and io[0] is not None else None
+                el = src.read((jv,)) if isinstance(src, Arr) else Function(i0[0], real=True)(jv)
+                acc = Symbol('acc@fold', real=True)
+                try:
+                    r_ = self.apply_lambda(lv_, None, st, vals=[acc, el])
+                    d_ = sp.expand(r_ - acc)
+                    if isinstance(r_, sp.Basic) and not d_.has(acc):
+                        return self.sym(args[2], st) + sp.Sum(r_ - acc if not (r_ - acc).has(acc) else d_, (jv, i0[1], i1[1] - 1))
+                except Undecided:
+                    pass
         if short == 'accumulate' and len(args) == 3:
             i0 = self.iterator(args[0], st)
             i1 = self.iterator(args[1], st)
@@ -639,6 +670,10 @@ class Symx:
             return None
         if e.get('k') == 'Call' and e.get('kind') == 'method' and e['callee']['name'] in ('begin', 'end', 'cbegin', 'cend'):
             name = self.lv_name(e['obj'])
+            ob_ = strip(e['obj'])
+            if ob_.get('k') == 'Member' and ob_.get('name') == 'components' and ob_.get('base') is not None and strip(ob_['base']).get('k') == 'Ref' \
+                    and str(strip(ob_['base']).get('ty', '')).replace('const ', '') in ('libphysica::Vector', 'libphysica::Matrix'):
+                name = self.lv_name(ob_['base'])     # the entries of a Vector/Matrix object are named like its subscript X[i]
             if e['callee']['name'] in ('begin', 'cbegin'):
                 return name, Integer(0)
             key = self.lv_key(e['obj']) if strip(e['obj'])['k'] in ('Ref', 'Member') else None
@@ -722,6 +757,8 @@ class Symx:
             a = [self.sym_or_name(x, st) for x in args]
             if not c.get('const') and key is not None and name in ('resize', 'assign', 'erase', 'insert', 'pop_back'):
                 st.env[key] = Arr(self.lv_name(obj) + "'")
+                if name in ('resize', 'assign') and a and len(a) <= 2 and isinstance(a[0], sp.Basic) and 'iterator' not in str(strip(args[0]).get('ty', '')):
+                    st.env[key].length = a[0]          # the container has exactly that many elements afterwards
             return Function('m:%s.%s' % (self.lv_name(obj), name), real=True)(*a)
         if c.get('inrepo'):
             fn = self.prog.by_sig(c.get('sig'))
@@ -1706,6 +1743,32 @@ class Symx:
                 return None
             g = sp.And(g, e2)
         return g, isub
+
+
+def terms_at(prog, fn, stmt, exprs, sx=None):
+    """Values of the IR expressions `exprs` in every path state that reaches statement `stmt` of fn - inside loops the
+    counters are the loop symbols `<name>_` and everything the loop writes is an entry placeholder.  Returns
+    (sx, [(state, [terms])])."""
+    sx = sx or Symx(prog, fn)
+    res = []
+    for st in sx.states_at(fn, stmt):
+        res.append((st, [sx.sym_or_name(e, st) for e in exprs]))
+    return sx, res
+
+
+def enclosing_loops(fn, stmt):
+    """The loop statements around `stmt` in fn, outermost first."""
+    from .ir import stmt_children
+
+    def rec(s, stack):
+        if s is stmt:
+            return stack
+        for c in stmt_children(s):
+            r = rec(c, stack + ([s] if s.get('k') in ('For', 'While', 'Do', 'RangeFor') else []))
+            if r is not None:
+                return r
+        return None
+    return rec(fn.body, []) or []
 
 
 def call_arg_terms(prog, fn, pred):
